@@ -72,6 +72,9 @@ CANARIES = [
     ('range-excluded-end-inclusive', 'C08', 'src/cursor.rs', '                Bound::Excluded(e) => {\n                    if data.key() < *e {', '                Bound::Excluded(e) => {\n                    if data.key() <= *e {'),
     ('range-no-skip-before-start', 'C08', 'src/cursor.rs', '                    if data.key() < *s {\n                        self.c.next();\n                    }', '                    if data.key() < *s {\n                    }'),
     ('range-skip-existing-start', 'C08', 'src/cursor.rs', '                    if excluded {\n                        self.c.next();\n                    }', '                    self.c.next();'),
+    ('cursor-underflow-empty-node', 'C08', 'src/cursor.rs', 'if elem.index + 1 >= page_node.len() {', 'if elem.index >= (page_node.len() - 1) {'),
+    ('cursor-current-on-branch', 'C08', 'src/cursor.rs', '                if !n.leaf() {\n                    return None;\n                }\n', ''),
+    ('cursor-pop-root', 'C08', 'src/cursor.rs', '                        if self.stack.len() == 1 {\n                            return None;\n                        }\n', ''),
 ]
 
 
